@@ -43,6 +43,33 @@ theorem run_filtered (I : Interp) (ft : Nat → Tsk Key) (hleaf : LeafTasks ft) 
 theorem range_getElem? (n p : Nat) (h : p < n) : (List.range n)[p]? = some p := by
   simp [h]
 
+theorem pick_spec (Q : List Nat) : ∀ (P R : List Nat), pick Q P = some R →
+    R.length = P.length ∧ ∀ (j p : Nat), P[j]? = some p → R[j]? = Q[p]? := by
+  intro P
+  induction P with
+  | nil =>
+    intro R h
+    simp [pick] at h
+    subst h
+    exact ⟨rfl, fun j p hj => by simp at hj⟩
+  | cons p0 t ih =>
+    intro R h
+    unfold pick at h
+    cases hx : Q[p0]? with
+    | none => simp [hx] at h
+    | some x =>
+      cases hr : pick Q t with
+      | none => simp [hx, hr] at h
+      | some r =>
+        simp only [hx, hr, Option.some.injEq] at h
+        subst h
+        have ⟨hl, hsp⟩ := ih r hr
+        refine ⟨by simp [hl], ?_⟩
+        intro j p hj
+        cases j with
+        | zero => simp at hj; subst hj; simp [hx]
+        | succ j => simp at hj; simpa using hsp j p hj
+
 /-! ### `DivInv` under row-wise sub-selection (Blockwise operators that keep index labels) -/
 
 theorem pairwise_of_map_sublist {f : Row → Int} {l l' : List Row}
